@@ -222,7 +222,47 @@ def processLocalAccounted : List Nat := [
 
 /-- facts about statement order / bounds the model relies on, pinned verbatim: a re-ordered statement or a changed bound changes the key -/
 def pinnedFacts : List Nat := [
+  1628760563375621,  -- guards src/core/vmexecutor.go VMExecutor.Execute [_.situation == 'casting' | 0 != len(_) && _.situation != 'casting' | 0 == _.Type | common.IsProposal013() | _.situation == 'casting' && utility.GetTime().Sub(_) > MaxCastBlockTime | common.IsProposal006() && !common.IsProposal007() | _ != nil | common.IsProposal018() && !_ | _ | !_ | !common.IsProposal018() | common.IsProposal027() && types.IsContractTx(_.Type) | _ != nil | _.Source != '' | !common.IsProposal006() | common.IsProposal007() | !(types.IsContractTx(_.Type) && _) | common.IsProposal013() | _ != nil | _.context['logs'] != nil | _ != nil | _ != nil && common.IsProposal015() | _.block.Header.Height == common.LocalChainConfig.Proposal010Block | _.block.Header.Height == common.LocalChainConfig.Proposal019Block] — branch conditions (locals blanked) of VMExecutor.Execute in source order, as followed by the model
   2127774949120221,  -- order src/core/vmexecutor.go VMExecutor.Execute [prepare,Sort,continue,Prepare,DEADLINE,break,IncreaseNonce,GetTxExecutor,BeforeExecute,continue,Snapshot,Execute,RevertToSnapshot,deductGasFee,IncreaseNonce,SetNonce,NewReceipt,GetLogs,removeUnusedValidator,removeUnusedValidator1,after,IntermediateRoot] — call order of Execute: the cast deadline is tested (and the loop left) before IncreaseNonce / BeforeExecute / Execute of that transaction touch the ledger — what castBlock models and cast_cutoff_consistent uses; sort before the loop, clean-ups and after() before IntermediateRoot
+  2109389179110332,  -- guards src/core/vmexecutor.go VMExecutor.after [0 == strings.Compare('testing',_.situation) | common.IsSub() | common.LocalChainConfig.Proposal004Block == _] — branch conditions (locals blanked) of VMExecutor.after in source order, as followed by the model
+  3117401005268865,  -- guards src/core/vmexecutor.go VMExecutor.calcDifficulty [_ < common.LocalChainConfig.Proposal025Block | 0 != len(_) | _ < common.LocalChainConfig.Proposal025Block + common.GetRewardBlocks() | nil == _ | _ == 0] — branch conditions (locals blanked) of VMExecutor.calcDifficulty in source order, as followed by the model
+  2515526779535959,  -- guards src/core/vmexecutor.go deductGasFee [_ == nil | _.Cmp(_) < 0] — branch conditions (locals blanked) of deductGasFee in source order, as followed by the model
+  1022286818051580,  -- guards src/core/vmexecutor.go removeUnusedValidator [_ == nil] — branch conditions (locals blanked) of removeUnusedValidator in source order, as followed by the model
+  903019856456591,  -- guards src/executor/base_executor.go baseFeeExecutor.BeforeExecute [_ != nil | _ != nil] — branch conditions (locals blanked) of baseFeeExecutor.BeforeExecute in source order, as followed by the model
+  220501940604705,  -- guards src/executor/base_executor.go validateNonce [common.IsProposal021() && _.Type != types.TransactionTypeETHTX | common.IsProposal018() | _ > _.Nonce | _ < _.Nonce] — branch conditions (locals blanked) of validateNonce in source order, as followed by the model
+  4314199085184152,  -- guards src/executor/contract_executor.go IntrinsicGas [_ | len(_) > 0 | _ != 0 | (math.MaxUint64 - _) / _ < _ | (math.MaxUint64 - _) / vm.TxDataZeroGas < _ | common.IsProposal026()] — branch conditions (locals blanked) of IntrinsicGas in source order, as followed by the model
+  4235601163667341,  -- guards src/executor/contract_executor.go contractExecutor.BeforeExecute [_ != nil | _ != nil | _ != '' | _ != nil] — branch conditions (locals blanked) of contractExecutor.BeforeExecute in source order, as followed by the model
+  4476146538871419,  -- guards src/executor/contract_executor.go contractExecutor.Execute [common.IsSub() && _.Target == common.WhitelistForCreate | 2 != _ | _.Target == '' | common.IsProposal015() | _ != nil | _.GasLimit < _ | common.IsProposal015() | common.IsProposal017() && _ > p017defaultGasLimit | common.IsProposal026() | _ > p026defaultGasLimit | _.Target == '' | common.IsProposal007() | common.IsProposal015() | _.Cmp(_) < 0 | _ != nil] — branch conditions (locals blanked) of contractExecutor.Execute in source order, as followed by the model
+  1780883263423632,  -- guards src/executor/contract_executor.go contractExecutor.decodeContractData [_ != nil | _.GasLimit == '' || _.GasLimit == '0' | common.IsProposal017() | _ != nil | _ != nil | common.IsProposal005() && (_.AbiData == '' || _.AbiData == '0x0')] — branch conditions (locals blanked) of contractExecutor.decodeContractData in source order, as followed by the model
+  1921619503109481,  -- guards src/executor/contract_executor.go preCheckContractFee [common.IsProposal015() | _.Cmp(new(big.Int).Add(_,_.TransferValue)) < 0] — branch conditions (locals blanked) of preCheckContractFee in source order, as followed by the model
+  1836253584729373,  -- guards src/executor/miner_executor.go minerAddExecutor.Execute [_ != nil | utility.IsEmptyByteSlice(_.Id) | nil != _] — branch conditions (locals blanked) of minerAddExecutor.Execute in source order, as followed by the model
+  831008041885318,  -- guards src/executor/miner_executor.go minerApplyExecutor.Execute [_ != nil | common.IsMainnet() && _.Type == common.MinerTypeProposer | nil != _ | utility.IsEmptyByteSlice(_.Id) | nil != _ | utility.IsEmptyByteSlice(_.Id) | utility.IsEmptyByteSlice(_.Account)] — branch conditions (locals blanked) of minerApplyExecutor.Execute in source order, as followed by the model
+  1399491743586546,  -- guards src/executor/miner_executor.go minerChangeAccountExecutor.Execute [_ != nil | nil == _ | 0 == bytes.Compare(_.Account,_.Account) | bytes.Compare(_.Account,_) != 0 | nil != _] — branch conditions (locals blanked) of minerChangeAccountExecutor.Execute in source order, as followed by the model
+  331302186177054,  -- guards src/executor/miner_executor.go minerRefundExecutor.Execute [nil == _ || nil == _ || nil == _.Sign | nil != _ | _ != nil | _ != nil | _] — branch conditions (locals blanked) of minerRefundExecutor.Execute in source order, as followed by the model
+  3924785208088733,  -- guards src/executor/operator_executor.go operatorExecutor.transfer [0 == len(_) | nil != _] — branch conditions (locals blanked) of operatorExecutor.transfer in source order, as followed by the model
+  1154932212912244,  -- guards src/middleware/types/refund.go RefundInfoList.AddRefundInfo [bytes.Compare(_,_.Id) == 0 | _] — branch conditions (locals blanked) of RefundInfoList.AddRefundInfo in source order, as followed by the model
+  2471093610083561,  -- guards src/middleware/types/transaction.go Transactions.Less [_[_].RequestId == 0 && _[_].RequestId == 0 | common.IsProposal023() | _[_].Source == _[_].Source | _[_].Nonce != _[_].Nonce | 0 == bytes.Compare(_,_) | common.IsProposal021() | _[_].Source == _[_].Source | common.IsProposal016() && _[_].Source == _[_].Source] — branch conditions (locals blanked) of Transactions.Less in source order, as followed by the model
+  3258931978876016,  -- guards src/service/game.go ChangeAssets [!_ | _ != '' | !_.IsEmpty() | !_.IsEmpty()] — branch conditions (locals blanked) of ChangeAssets in source order, as followed by the model
+  4280567044644227,  -- guards src/service/game.go transferBalance [_ != nil | _.Sign() == -1 | _.Cmp(_) == -1] — branch conditions (locals blanked) of transferBalance in source order, as followed by the model
+  4153718592607948,  -- guards src/service/miner_manager.go MinerIterator.Current [_ != nil | len(_.Id) == 0 | nil != _ && 1 == len(_) | _.Status == common.MinerStatusAbort] — branch conditions (locals blanked) of MinerIterator.Current in source order, as followed by the model
+  406513465418397,  -- guards src/service/miner_manager.go MinerManager.AddMiner [_.Type != common.MinerTypeValidator && _.Type != common.MinerTypeProposer | (_.Type == common.MinerTypeValidator && _.Stake < common.ValidatorStake) || (_.Type == common.MinerTypeProposer && _.Stake < common.ProposerStake) | utility.IsEmptyByteSlice(_.VrfPublicKey) || utility.IsEmptyByteSlice(_.PublicKey) | _.Cmp(_) < 0 | _.GetMiner(_,_) != nil | nil != _] — branch conditions (locals blanked) of MinerManager.AddMiner in source order, as followed by the model
+  2952071578527006,  -- guards src/service/miner_manager.go MinerManager.AddStake [_ == 0 | _.Cmp(_) < 0 | nil == _ | nil == _ | _.Stake < 0 | _.Type == common.MinerTypeProposer && _.Stake > common.ProposerStake || _.Type == common.MinerTypeValidator && _.Stake > common.ValidatorStake] — branch conditions (locals blanked) of MinerManager.AddStake in source order, as followed by the model
+  2838836590324761,  -- guards src/service/miner_manager.go MinerManager.GetMinerById [_ == nil | _ != nil && len(_) > 0 | nil != _ | nil != _ && 1 == len(_) | 0 != len(_)] — branch conditions (locals blanked) of MinerManager.GetMinerById in source order, as followed by the model
+  3133686232735880,  -- guards src/service/miner_manager.go MinerManager.GetMinerIdByAccount [nil == _ | 0 == bytes.Compare(_.Account,_) | nil == _ | 0 == bytes.Compare(_.Account,_)] — branch conditions (locals blanked) of MinerManager.GetMinerIdByAccount in source order, as followed by the model
+  435596902100149,  -- guards src/service/miner_manager.go MinerManager.GetProposerTotalStakeWithDetail [_ == nil | nil == _ || common.MinerStatusNormal != _.Status || _ < _.ApplyHeight | _ == 0 | nil == _] — branch conditions (locals blanked) of MinerManager.GetProposerTotalStakeWithDetail in source order, as followed by the model
+  3724828542680545,  -- guards src/service/miner_manager.go MinerManager.GetValidatorsStake [0 == _] — branch conditions (locals blanked) of MinerManager.GetValidatorsStake in source order, as followed by the model
+  3926387235696109,  -- guards src/service/miner_manager.go MinerManager.RemoveMiner [_ == 0 && !_.IsContract(common.BytesToAddress(_))] — branch conditions (locals blanked) of MinerManager.RemoveMiner in source order, as followed by the model
+  2965944977307916,  -- guards src/service/miner_manager.go MinerManager.RemoveUnusedValidator [nil == _ || common.MinerStatusNormal != _.Status | _ | nil == _] — branch conditions (locals blanked) of MinerManager.RemoveUnusedValidator in source order, as followed by the model
+  2957721264600868,  -- guards src/service/miner_manager.go MinerManager.UpdateMiner [_ | common.IsProposal003()] — branch conditions (locals blanked) of MinerManager.UpdateMiner in source order, as followed by the model
+  3183538165829418,  -- guards src/service/refund_manager.go RefundManager.Add [nil == _ || nil == _ || 0 == len(_) | _.IsEmpty() | nil == _ || 0 == len(_)] — branch conditions (locals blanked) of RefundManager.Add in source order, as followed by the model
+  2044938934486058,  -- guards src/service/refund_manager.go RefundManager.CheckAndMove [nil == _ | nil == _ || 0 == len(_)] — branch conditions (locals blanked) of RefundManager.CheckAndMove in source order, as followed by the model
+  3787654012936979,  -- guards src/service/refund_manager.go RefundManager.GetRefundStake [nil == _ | 0 != bytes.Compare(_,_.Account) | _ == math.MaxUint64 | _.Stake < _ | _.Type == common.MinerTypeProposer && _ < common.ProposerStake || _.Type == common.MinerTypeValidator && _ < common.ValidatorStake] — branch conditions (locals blanked) of RefundManager.GetRefundStake in source order, as followed by the model
+  1305450227522373,  -- guards src/service/refund_manager.go RefundManager.getRefundHeight [common.IsProposal012() | _ == common.MinerTypeValidator | _ != 'fork' | _ > 0 | _ != math.MaxUint64 | common.IsProposal004() && _ <= 0 | common.LocalChainConfig.Proposal011Block == _] — branch conditions (locals blanked) of RefundManager.getRefundHeight in source order, as followed by the model
+  3407451704400574,  -- guards src/service/reward_calculator.go RewardCalculator.CalculateReward [nil == _ || 0 == len(_)] — branch conditions (locals blanked) of RewardCalculator.CalculateReward in source order, as followed by the model
+  3686763930576353,  -- guards src/service/reward_calculator.go RewardCalculator.NextRewardHeight [] — branch conditions (locals blanked) of RewardCalculator.NextRewardHeight in source order, as followed by the model
+  993244962204717,  -- guards src/service/reward_calculator.go RewardCalculator.calculateRewardPerBlock [_ != 0 | nil == _.GroupId | _ != 'fork' | _ == nil | _ != 0] — branch conditions (locals blanked) of RewardCalculator.calculateRewardPerBlock in source order, as followed by the model
+  4482658790777760,  -- guards src/service/reward_calculator.go addReward [_] — branch conditions (locals blanked) of addReward in source order, as followed by the model
+  2982317221269302,  -- guards src/service/transaction_pool.go TxPool.ProcessFee [common.IsProposal026() | _.Cmp(_) < 0] — branch conditions (locals blanked) of TxPool.ProcessFee in source order, as followed by the model
   3369878446308394  -- bound src/vm/instructions.go opBlockhash [GetHash iff num64 >= lower && num64 < upper] — BLOCKHASH asks the node chain index only for lower <= n < BlockNumber: strictly below the executing height (Model.blockhashAsksChain, blockhash_reads_only_ancestors)
 ]
 
@@ -258,7 +298,7 @@ theorem process_local_reads_pinned :
 
 /-- the statement-order fact of `VMExecutor.Execute` and the BLOCKHASH window are exactly the pinned ones -/
 theorem order_and_bounds_pinned :
-    ((sites.filter (fun s => s.kind == "order" || s.kind == "bound")).map (·.key)) = pinnedFacts := by
+    ((sites.filter (fun s => s.kind == "order" || s.kind == "bound" || s.kind == "guards")).map (·.key)) = pinnedFacts := by
   decide
 
 example : processLocalAccounted ≠ [] := by decide
